@@ -231,6 +231,20 @@ CLAIMS["C19"] = {
     "note": "F1 is a genuine defect of the unchanged tree (reproduction in findings/F1), listed in known_findings.json, not fixed. " + _TB,
 }
 
+CLAIMS["C14"] = {
+    "text": "Decides only structural necessary conditions of C14: the version builder orders files by smallest key with "
+            "ties by ascending number (comparator sign analysis) and emits a pre-existing file before an added one only while "
+            "it sorts before it; a file is carried over iff the edit did not delete it; recorded bounds and size of a flushed "
+            "or compacted table are those of the entries written (smallest = first key, largest = last key, size read after "
+            "finish); outputs enter level+1, flushes the overlap-free level, trivial moves need an empty next-level overlap, "
+            "inputs of both levels are retired by the installing edit, only level 0 is searched as overlapping; the MANIFEST "
+            "snapshot re-emits all levels. Sortedness, disjointness and recency of concrete layouts are NOT decided (runtime "
+            "metadata; the in-code assertions are compiled out).",
+    "design_ref": "DESIGN.md 12.7",
+    "technique": "static analysis: comparator ordering analysis, guard dominance and call-order rules on the clang CFG",
+    "note": "Partial by construction; added in the build round after the design had declared C14 not applicable (see DESIGN 12.7). " + _TB,
+}
+
 _PENDING = ("check not built yet in this revision; the property is listed here so that it is not claimed "
             "without machinery (see DESIGN.md for the planned rules)")
 
@@ -238,10 +252,6 @@ NOT_APPLICABLE = {
     "C07": "Positioning, completeness and bidirectional agreement of iterators are functions of the runtime key "
            "sequence in merged children; no clause beyond version/memtable pinning (decided under C13) is visible "
            "in code shape, and a structural proxy for the direction-switch logic would be a frozen fragment.",
-    "C14": "Well-formedness of the level layout (sortedness, disjointness, per-key recency across levels, bounds "
-           "equal to contents) is an invariant over runtime file metadata; the only in-code checks are "
-           "NDEBUG-compiled assertions, and static rules on the arithmetic of level+1 edits would fire on "
-           "behaviour-preserving refactors.",
 }
 for _p in ["C01", "C02", "C03", "C04", "C05", "C06", "C08", "C09", "C10", "C11", "C12", "C13", "C15", "C16",
            "C18", "C19", "C20"]:
